@@ -1,5 +1,5 @@
 #!/usr/bin/env python3
-"""confirm_seed.py <property> <n>  - independently confirm a seeded change produced by a sub-agent.
+"""confirm_seed.py <property> <n> [root=/tmp/seed] [number under seeded/]  - independently confirm a seeded change produced by a sub-agent.
 
 Takes /tmp/seed/<property>/out/<n>/{patch.diff,demo/*,notes.md}, and in a scratch worktree of /repo (HEAD):
   1. places the demonstration and runs it on the unmodified tree  -> must pass
@@ -12,9 +12,11 @@ Writes /verif/seeded/<property>-<n>/{patch.diff,demo/,notes.md,meta.json}; the s
 import json, os, re, shutil, subprocess, sys, time
 
 prop, n = sys.argv[1], sys.argv[2]
-src = f"/tmp/seed/{prop}/out/{n}"
-wt = f"/tmp/confirm/{prop}-{n}"
-dst = f"/verif/seeded/{prop}-{n}"
+root = sys.argv[3] if len(sys.argv) > 3 else "/tmp/seed"      # round 2: /tmp/seed2
+dn = sys.argv[4] if len(sys.argv) > 4 else n                    # number under /verif/seeded (round 2: n+2)
+src = f"{root}/{prop}/out/{n}"
+wt = f"/tmp/confirm/{prop}-{dn}"
+dst = f"/verif/seeded/{prop}-{dn}"
 env = dict(os.environ, GOFLAGS="-mod=mod", GOPROXY="off", GOSUMDB="off", GOTOOLCHAIN="local")
 
 def sh(cmd, cwd=None, timeout=1500):
@@ -25,7 +27,7 @@ os.makedirs("/tmp/confirm", exist_ok=True)
 sh(f"git -C /repo worktree remove --force {wt}")
 rc, out = sh(f"git -C /repo worktree add -f --detach {wt} HEAD")
 assert rc == 0, out
-meta = {"property": prop, "seed": f"{prop}-{n}", "repo_head": sh("git -C /repo rev-parse --short HEAD")[1].strip(), "confirmed_at": time.strftime("%Y-%m-%dT%H:%M:%S")}
+meta = {"property": prop, "seed": f"{prop}-{dn}", "repo_head": sh("git -C /repo rev-parse --short HEAD")[1].strip(), "confirmed_at": time.strftime("%Y-%m-%dT%H:%M:%S")}
 try:
     demos = []
     for f in sorted(os.listdir(f"{src}/demo")):
